@@ -60,6 +60,25 @@ def value(vt, which):
     raise ValueError(vt)
 
 
+def recovery_value(vt):
+    """a value of the same kind as value(vt, .) but shorter"""
+    if vt in ("text", "bigtext"):
+        return "R3"
+    if vt == "bytes":
+        return b"r3"
+    if vt == "dict":
+        return {"t": "R3"}
+    if vt == "list":
+        return ["R3"]
+    if vt == "int":
+        return 3
+    if vt == "frame":
+        import pandas as pd
+
+        return pd.DataFrame({"a": [3]})
+    return "R3"
+
+
 def other_type(vt):
     return {"text": "dict", "bytes": "text", "dict": "text", "list": "text", "int": "text", "frame": "text", "bigtext": "dict"}[vt]
 
@@ -354,6 +373,26 @@ def run_case(comp, op, vt, scratch, out, only=None):
                 viol(out, comp, op, vt, kind, {"comp": comp, "op": op, "vt": vt, "n": n, "torn": k},
                      "crash before op %d/%d %r%s, read order %s: observed data %r marker %r" % (
                          n, L, at, " after %d bytes" % k if k else "", order, short(obs.get("data")), obs.get("marker")))
+        # recovery: after the restart the entry is written again (a shorter value of the same kind) without any fault;
+        # whatever the crash left behind (temporary files, partial files) must not leak into it
+        if (n + k) % 2 == 0 or L <= 6:
+            out["counters"]["recovery_checks"] = out["counters"].get("recovery_checks", 0) + 1
+            v3 = recovery_value(vt)
+            try:
+                obj = build(comp, work)
+                if comp == "filestore":
+                    obj.store(KEY, enc(v3), {"x_marker": "NEW"})
+                else:
+                    cache_store(obj, KEY, v3, "NEW")
+                robs = read_entry(comp, work, "data_first")
+                rk = classify(comp, robs, None, v3, "removedir_recursive" if op == "removedir_recursive" else "store_fresh")
+                if rk is None and not robs.get("has_data"):
+                    rk = "entry written after the restart is not readable"
+            except Exception as e:
+                rk = "writing the entry again after the restart raises %s" % type(e).__name__
+            if rk is not None:
+                viol(out, comp, op, vt, "after recovery: " + rk, {"comp": comp, "op": op, "vt": vt, "n": n, "torn": k},
+                     "crash before op %d/%d %r%s, then a complete store of a shorter value" % (n, L, trace[n - 1], " after %d bytes" % k if k else ""))
     shutil.rmtree(base, ignore_errors=True)
 
 
@@ -393,7 +432,7 @@ def replay(spec):
 
 def finalize(m, tier, seed):
     inc = []
-    for k in ("traces", "opkind.write", "opkind.open_write", "opkind.remove", "observed.nothing", "observed.value"):
+    for k in ("recovery_checks", "traces", "opkind.write", "opkind.open_write", "opkind.remove", "observed.nothing", "observed.value"):
         if not m["counters"].get(k):
             inc.append("coverage class %s empty" % k)
     if m["counters"].get("not_crashed", 0) > 0:
